@@ -162,6 +162,21 @@ pub fn fit_failure(ty: &Ty, v: &Value, n: usize) -> Option<(Vec<u16>, bool, bool
     go(ty, v, n, &mut vec![])
 }
 
+/// Equality of two values as the element types' `PartialEq` defines it: native floats compare
+/// numerically (NaN != NaN, 0.0 == -0.0), everything else structurally / by stored bytes.
+pub fn values_eq(ty: &Ty, a: &Value, b: &Value) -> bool {
+    match (ty, a, b) {
+        (Ty::Prim(Prim::F32), Value::Scalar(x), Value::Scalar(y)) => f32::from_bits(*x as u32) == f32::from_bits(*y as u32),
+        (Ty::Prim(Prim::F64), Value::Scalar(x), Value::Scalar(y)) => f64::from_bits(*x as u64) == f64::from_bits(*y as u64),
+        (Ty::Array(t, _), Value::Array(xs), Value::Array(ys)) | (Ty::FlatVec(t, _), Value::Vec(xs), Value::Vec(ys)) => {
+            xs.len() == ys.len() && xs.iter().zip(ys).all(|(x, y)| values_eq(t, x, y))
+        }
+        (Ty::Struct(s), Value::Struct(xs), Value::Struct(ys)) => s.fields.iter().zip(xs.iter().zip(ys)).all(|(t, (x, y))| values_eq(t, x, y)),
+        (Ty::Enum(e), Value::Enum(i, xs), Value::Enum(j, ys)) => i == j && e.variants[*i].fields.iter().zip(xs.iter().zip(ys)).all(|(t, (x, y))| values_eq(t, x, y)),
+        _ => a == b,
+    }
+}
+
 fn peek(addr: usize, len: usize) -> Vec<u8> {
     let mut v = vec![0u8; len];
     unsafe { std::ptr::copy_nonoverlapping(addr as *const u8, v.as_mut_ptr(), len) };
@@ -714,6 +729,50 @@ pub fn run_history(sh: &dyn DynShape, tape: &[u8], cfg: &HistCfg, st: &mut Stats
                             stop = Some(Stop::Violation(Violation {
                                 key: "remap".into(),
                                 msg: format!("{}: after {:?} the first size() = {} bytes do not re-map: {}; value {}", name, outcome.trace, sz, show_err(&e), abs.show()),
+                            }));
+                            return;
+                        }
+                    }
+                }
+                // equality against a second container with the same / different contents (C11)
+                if cfg.owns(Clause::VecModel) && matches!(ty, Ty::FlatVec(..) | Ty::FlatString(_)) && (step_owned || stepno == 0) {
+                    let mk = |val: &Value, fill: u8| -> Option<Vec<u8>> {
+                        let n2 = model::size_of(ty, val) + 3 * a + 5;
+                        let mut b2 = Guarded::new_aligned(n2, a, 0, true);
+                        b2.slice().fill(fill);
+                        sh.new_in_place(b2.slice(), val, &[], &mut |_| {}).ok()?;
+                        Some(b2.as_ref().to_vec())
+                    };
+                    // same contents, different capacity, different garbage in the spare room
+                    if let Some(img2) = mk(&abs, 0xA7) {
+                        let mut b2 = Guarded::new_aligned(img2.len(), a, 0, false);
+                        b2.fill(&img2);
+                        let want = values_eq(ty, &abs, &abs);
+                        match live.eq_bytes(b2.as_ref()) {
+                            Some(x) if x == want => {}
+                            other => {
+                                stop = Some(Stop::Violation(Violation {
+                                    key: "equality".into(),
+                                    msg: format!("{}: after {:?} comparing the container with a second one holding the same contents {} gives {:?} where element-wise equality gives {}", name, outcome.trace, abs.show(), other, want),
+                                }));
+                                return;
+                            }
+                        }
+                    }
+                    // different contents: one element more
+                    let mut other = abs.clone();
+                    match &mut other {
+                        Value::Vec(xs) => xs.push(minimal_values(match ty { Ty::FlatVec(t, _) => t, _ => unreachable!() }).remove(0)),
+                        Value::Str(st) => st.push('x'),
+                        _ => {}
+                    }
+                    if let Some(img2) = mk(&other, 0x00) {
+                        let mut b2 = Guarded::new_aligned(img2.len(), a, 0, false);
+                        b2.fill(&img2);
+                        if live.eq_bytes(b2.as_ref()) != Some(false) {
+                            stop = Some(Stop::Violation(Violation {
+                                key: "equality".into(),
+                                msg: format!("{}: after {:?} the container {} compares equal to {}", name, outcome.trace, abs.show(), other.show()),
                             }));
                             return;
                         }
